@@ -165,6 +165,32 @@ fn tables(sink: &mut Out) {
   tab(sink, "fetus_branch", each(60, |i| FetusDay::new(sc(i)).get_fetus_earth_branch().get_index() as i64));
   tab(sink, "fetus_side", each(60, |i| if FetusDay::new(sc(i)).get_side() == Side::OUT { 1 } else { 0 }));
   tab(sink, "fetus_direction", each(60, |i| FetusDay::new(sc(i)).get_direction().get_index() as i64));
+  // the same spirit through real values, entry i = the value whose OWN pillar is i: a sexagenary day, a lunar day, and
+  // the sexagenary day an instant at 23:30 carries (its pillar has already rolled); value = 10 * side + direction
+  let wh = |f: &FetusDay| (if f.get_side() == Side::OUT { 10 } else { 0 }) + f.get_direction().get_index() as i64;
+  let base = SolarDay::from_ymd(2024, 3, 1);
+  let by_pillar = |route: i64| -> Vec<i64> {
+    use tyme4rs::tyme::Tyme as _;
+    let mut v = vec![BAD; 60];
+    for k in 0..60isize {
+      let d = base.next(k);
+      let r = catch(|| match route {
+        0 => { let x = d.get_sixty_cycle_day(); (x.get_sixty_cycle().get_index(), wh(&x.get_fetus_day())) }
+        1 => { let x = d.get_lunar_day(); (x.get_sixty_cycle().get_index(), wh(&x.get_fetus_day())) }
+        _ => {
+          let x = tyme4rs::tyme::solar::SolarTime::from_ymd_hms(d.get_year(), d.get_month(), d.get_day(), 23, 30, 0).get_sixty_cycle_hour().get_sixty_cycle_day();
+          (x.get_sixty_cycle().get_index(), wh(&x.get_fetus_day()))
+        }
+      });
+      if let Some((p, w)) = r {
+        v[p] = w;
+      }
+    }
+    v
+  };
+  tab(sink, "fetus_where_day", by_pillar(0));
+  tab(sink, "fetus_where_lunar", by_pillar(1));
+  tab(sink, "fetus_where_late", by_pillar(2));
   tab(sink, "pengzu_stem", each(60, |i| PengZu::from_sixty_cycle(sc(i)).get_peng_zu_heaven_stem().get_index() as i64));
   tab(sink, "pengzu_branch", each(60, |i| PengZu::from_sixty_cycle(sc(i)).get_peng_zu_earth_branch().get_index() as i64));
   // the taboo sentence of a stem / branch starts with that stem / branch
